@@ -622,6 +622,13 @@ impl FunctionCompiler<'_> {
             let old_exits = std::mem::take(&mut self.exits);
             let old_continues = std::mem::take(&mut self.continues);
             let res = self.compile_expr_with_args(body, no_load);
+            // the body may have a narrower type than the annotation of the global
+            let res = if no_load {
+                res
+            } else {
+                let sig_ty = self.tys.sig(loc.wrap());
+                self.cast(res, self.tys[self.loc][body], sig_ty)
+            };
             self.continues = old_continues;
             self.exits = old_exits;
             self.switch_locals = old_switch_locals;
